@@ -136,7 +136,8 @@ End Proofs.
 
 Section Embedded.
   Variable T : transformer.
-  Notation tr := (tr T true).     (* token callbacks are installed as lexer callbacks: visit_tokens = True *)
+  Variable vt : bool.
+  Notation tr := (tr T vt).
   Notation call_rule := (call_rule T).
   (* ---- embedded transformer = transforming afterwards ---------------------------------------- *)
   (* callbacks are attached to named (non-underscore) rules, aliases, template names, terminals *)
@@ -192,20 +193,20 @@ Section Embedded.
   Qed.
 
   Theorem embedded_eq_posthoc mp d : wf_dtree mp d = true ->
-    embedded T mp d = option_map tr (shape mp d).
+    embedded T vt mp d = option_map tr (shape mp d).
   Proof.
     induction d as [ty v|r ch IH] using dtree_ind'; intros Hwf.
     - reflexivity.
     - pose proof Hwf as Hwf0.
       cbn [wf_dtree] in Hwf. repeat (apply andb_true_iff in Hwf; destruct Hwf as [Hwf ?]).
       rename H into Hall, H0 into Harity, H1 into Hinl.
-      change (embedded T mp (DNode r ch)) with
-        (match all_some (map (embedded T mp) ch) with
+      change (embedded T vt mp (DNode r ch)) with
+        (match all_some (map (embedded T vt mp) ch) with
          | Some vs => spec_rule value VNone vkids (on_rule T) VTree r mp vs | None => None end).
       change (shape mp (DNode r ch)) with
         (match all_some (map (shape mp) ch) with
          | Some vs => spec_rule stree NoneV skids no_user Tr r mp vs | None => None end).
-      assert (Hch : all_some (map (embedded T mp) ch) = option_map (map tr) (all_some (map (shape mp) ch))).
+      assert (Hch : all_some (map (embedded T vt mp) ch) = option_map (map tr) (all_some (map (shape mp) ch))).
       { clear Harity Hwf0. induction ch as [|c ch IHch]; simpl; auto.
         simpl in Hall. apply andb_true_iff in Hall. destruct Hall as [Hc Hall].
         inversion IH as [|? ? IHc IHrest]; subst.
